@@ -421,6 +421,20 @@ def part_decorate(ctx, shard):
             usages.append(("returns-multiple", lambda f=f: f(), log, ret, 1))
             f, log = mk_nested()
             usages.append(("nested", lambda f=f: f(val), log, val, 0))
+
+            def mk_returns_tuple_one_dim():
+                log = []
+                ret = (val, unyt_quantity(1.0, "kg"))  # ONE stated dimension, a tuple result: the first value is the checked one
+
+                @returns(dim)
+                def f():
+                    log.append(1)
+                    return ret
+
+                return f, log, ret
+
+            f, log, ret = mk_returns_tuple_one_dim()
+            usages.append(("returns-one-dimension-tuple-result", lambda f=f: f(), log, ret, 1))
             # every usage is also exercised as the SECOND and THIRD call of the same decorated function (after calls with a
             # matching argument): a decorator that keeps per-function state must not wear out
             good_val = spellings[0][1]
